@@ -25,7 +25,7 @@ def run(tier: str) -> int:
                      "variant": k})
     recs = pmap(drv.exec_osu, scns)
     nc = 1200 if tier == "quick" else 20000
-    recs += pmap(drv.exec_chart, [{"id": f"c{i}", "keys": 1 + i % 18, "n": 1 + i % 40} for i in range(nc)])
+    recs += pmap(drv.exec_chart, [{"id": f"c{i}", "keys": 1 + i % 18, "n": 1 + i % 40, "neg_sv": i % 3 == 0} for i in range(nc)])
     rejects, consumed, wall = validate_traces("OsuTrace", "OsuTrace", recs, tag=f"c01-{tier}", heap="4g")
     chk.add_traces(recs, rejects)
     chk.nontrivial = len({(x["op"], str(x.get("file", x.get("gens")))[:3000]) for x in recs})
